@@ -42,6 +42,7 @@ type Engine struct {
 	Lemmas    []*Lemma
 	Schemas   map[string]string
 	Globals   []*GlobalSpec
+	Ghosts    []*GhostSpec
 
 	Obls       []*Obligation
 	oblMu      sync.Mutex
@@ -66,6 +67,10 @@ type Engine struct {
 	errSites  map[string]string
 	recDefs   map[string]string // declare-fun line -> define-fun-rec line of recursive spec functions
 	recInfo   []recFun
+	inlineCount int
+	usedLemmas  map[string]bool
+	allRefs   map[string]bool
+	refDeps   map[string][]string
 }
 
 type BoundedCheck struct {
@@ -92,6 +97,10 @@ type Obligation struct {
 }
 
 func NewEngine(repo string) *Engine {
+	for _, f := range hofInit {
+		f()
+	}
+	hofInit = nil
 	return &Engine{
 		RepoDir:      repo,
 		declared:     map[string]bool{},
@@ -107,6 +116,7 @@ func NewEngine(repo string) *Engine {
 		TimeoutMs:    10000,
 		PathLimit:    4000,
 		siteOrd:      map[string]int{},
+		usedLemmas:   map[string]bool{},
 	}
 }
 
@@ -222,6 +232,8 @@ type State struct {
 	ghost  map[string]string
 
 	cloCells map[*Cell]*Val // closures stored in local cells (engine-level)
+	priv     map[string]bool // fresh references still private to the verified function (private.go)
+	privClean map[string]bool // private cells whose content came from outside (holds no private reference)
 }
 
 func (st *State) clone() *State {
@@ -240,6 +252,18 @@ func (st *State) clone() *State {
 		n.ghost[k] = v
 	}
 	n.trace = append([]string(nil), st.trace...)
+	if st.priv != nil {
+		n.priv = make(map[string]bool, len(st.priv))
+		for k := range st.priv {
+			n.priv[k] = true
+		}
+	}
+	if st.privClean != nil {
+		n.privClean = make(map[string]bool, len(st.privClean))
+		for k, v := range st.privClean {
+			n.privClean[k] = v
+		}
+	}
 	if st.cloCells != nil {
 		n.cloCells = map[*Cell]*Val{}
 		for k, v := range st.cloCells {
